@@ -55,11 +55,27 @@ K_SAMPLE = 300  # draws of sample() per sampling read
 N_SAMPLE = 2000  # N of sample_N_outputs / sample_N_inputs per sampling read
 
 
+def rules_overlap(rules) -> bool:
+    seen: set = set()
+    for ms, _cnt in rules:
+        if seen & set(ms):
+            return True
+        seen |= set(ms)
+    return False
+
+
+def new_ps(rules):
+    """an empty PostSelection able to hold `rules` (rules sharing a mode need multi_rules=True)"""
+    return lw.PostSelection(multi_rules=True) if rules_overlap(rules) else lw.PostSelection()
+
+
 def gen_rules(rng, modes: int, nph: int) -> list:
     rules = []
     used: set = set()
+    # a quarter of the rule sets may put several rules on one mode (PostSelection(multi_rules=True))
+    share = rng.random() < 0.25
     for _ in range(rng.choice([0, 0, 1, 1, 2, 3])):
-        free = [m for m in range(modes) if m not in used]
+        free = [m for m in range(modes) if share or m not in used]
         if not free:
             break
         k = rng.randint(1, min(2, len(free)))
@@ -86,7 +102,7 @@ def make_ps(rules, form: str = "rules"):
         return lambda s, rr=rr: all(sum(s[m] for m in ms) in cnt for ms, cnt in rr)
     if not rules:
         return None
-    ps = lw.PostSelection()
+    ps = new_ps(rules)
     for ms, cnt in rules:
         ps.add(tuple(ms), tuple(cnt))
     return ps
